@@ -266,7 +266,37 @@ def join_script(rng, stmts):
 
 
 # ============================================================================ kind 'prog': trees
+COND_NODES = ('cmp', 'and', 'or', 'not', 'cpar')
+CMP_OPS = ['<', '<=', '>', '>=', '==', '!=']
+
+
+def cond_toks(c, need, term):
+    """flat tokens of a condition (comparisons joined by not / and / or), parenthesised where Python's precedences require it"""
+    prec = {'or': 1, 'and': 2, 'not': 3, 'cmp': 4, 'cpar': 5}[c[0]]
+    if prec < need:
+        return [['(']] + cond_toks(c, 0, term) + [[')']]
+    if c[0] == 'cmp':
+        return tree_toks(c[2], 1, term) + [['O', c[1]]] + tree_toks(c[3], 1, term)
+    if c[0] == 'not':
+        return [['K', 'not']] + cond_toks(c[1], 3, term)
+    if c[0] == 'cpar':
+        return [['(']] + cond_toks(c[1], 0, term) + [[')']]
+    return cond_toks(c[1], prec, term) + [['K', c[0]]] + cond_toks(c[2], prec + 1, term)
+
+
+def cond_source(c, floats=False):
+    if c[0] == 'cmp':
+        return '(%s %s %s)' % (ref_source(c[2], floats), c[1], ref_source(c[3], floats))
+    if c[0] == 'not':
+        return '(not %s)' % cond_source(c[1], floats)
+    if c[0] == 'cpar':
+        return cond_source(c[1], floats)
+    return '(%s %s %s)' % (cond_source(c[1], floats), c[0], cond_source(c[2], floats))
+
+
 def tree_prec(tr):
+    if tr[0] == 'if':
+        return 0
     if tr[0] == 'neg':
         return 3
     if tr[0] == 'bin':
@@ -278,6 +308,8 @@ def tree_toks(tr, need, term):
     """flat tokens of a tree, parenthesised exactly where Python's precedences require it; term(kind, name, k) -> text"""
     if tree_prec(tr) < need:
         return [['(']] + tree_toks(tr, 0, term) + [[')']]
+    if tr[0] == 'if':           # a if c else b   (only at the top of a right-hand side, or as the alternative of another one)
+        return tree_toks(tr[1], 1, term) + [['K', 'if']] + cond_toks(tr[2], 0, term) + [['K', 'else']] + tree_toks(tr[3], 0, term)
     if tr[0] == 'num':
         return [['N', tr[1]]]
     if tr[0] == 'var':
@@ -337,6 +369,8 @@ def expected_names(seq_terms, lhs_names):
 
 def ref_source(tr, floats=False):
     """fully parenthesised Python source of a tree over R(name, k); floats: integer literals written as floats"""
+    if tr[0] == 'if':
+        return '(%s if %s else %s)' % (ref_source(tr[1], floats), cond_source(tr[2], floats), ref_source(tr[3], floats))
     if tr[0] == 'num':
         return '(' + tr[1] + ('.0' if floats and '.' not in tr[1] else '') + ')'
     if tr[0] == 'var':
@@ -392,6 +426,27 @@ def gen_tree(rng, d, ctx):
         nm = rng.choice(ctx['names'])
         base = ['bin', '+', base, ['var', ctx['kind'][nm], nm, 0]]
     return ['bin', '**', base, rng.choice([['num', '2'], ['num', '0.5'], ['num', '3'], ['neg', ['num', '1']], ['par', ['neg', ['num', '1']]]])]
+
+
+def gen_cond(rng, d, ctx):
+    r = rng.random()
+    if d <= 0 or r < 0.55:
+        return ['cmp', rng.choice(CMP_OPS), gen_tree(rng, rng.choice([0, 0, 1]), ctx), gen_tree(rng, rng.choice([0, 0, 1]), ctx)]
+    if r < 0.75:
+        return [rng.choice(['and', 'or']), gen_cond(rng, d - 1, ctx), gen_cond(rng, d - 1, ctx)]
+    if r < 0.9:
+        return ['not', gen_cond(rng, d - 1, ctx)]
+    return ['cpar', gen_cond(rng, d - 1, ctx)]
+
+
+def gen_rhs(rng, ctx):
+    """an arithmetic tree, or (a quarter of the time) a conditional expression a if c else b, b possibly conditional again"""
+    if rng.random() >= 0.25:
+        return gen_tree(rng, rng.choice([1, 2, 2, 3, 4]), ctx)
+    alt = gen_tree(rng, rng.choice([0, 1, 2]), ctx)
+    if rng.random() < 0.2:
+        alt = ['if', gen_tree(rng, rng.choice([0, 1]), ctx), gen_cond(rng, 1, ctx), alt]
+    return ['if', gen_tree(rng, rng.choice([0, 1, 2]), ctx), gen_cond(rng, rng.choice([0, 1, 1, 2]), ctx), alt]
 
 
 def render_prog(rng, eqs, f20=False):
@@ -477,7 +532,7 @@ def gen_prog(rng):
         if rng.random() < 0.12 and (ctx['L'] or ctx['Ld']):
             k0 = rng.choice([-k for k in ctx['L'][:1]] + ctx['Ld'][:1])
         for _ in range(50):
-            e = {'lhs': [y, k0], 'rhs': gen_tree(rng, rng.choice([1, 2, 2, 3, 4]), ctx)}
+            e = {'lhs': [y, k0], 'rhs': gen_rhs(rng, ctx)}
             if supported(e):
                 break
         else:
@@ -1098,6 +1153,14 @@ def shrink_candidates(case):
 
         def smaller(tr):
             if tr[0] in ('num', 'var'):
+                return
+            if tr[0] == 'if':                   # the value, the alternative, or a smaller value / alternative; the condition is kept
+                yield tr[1]
+                yield tr[3]
+                for x in smaller(tr[1]):
+                    yield ['if', x, tr[2], tr[3]]
+                for x in smaller(tr[3]):
+                    yield ['if', tr[1], tr[2], x]
                 return
             subs = tr[2] if tr[0] == 'call' else [x for x in tr[1:] if isinstance(x, list)]
             for s in subs:
